@@ -311,6 +311,20 @@ func batch(t *testing.T, p *Prop, outPath string) {
 			res.Hashes = append(res.Hashes, fmt.Sprintf("%d %016x %016x %d %s", idx, o.LogHash, o.Finger, o.Steps, v))
 		}
 		if o.Infra != "" {
+			if os.Getenv("VERIF_DEBUG_INFRA") != "" {
+				// debugging aid: the same case again in the same process, with a trace
+				b, _ := json.Marshal(c)
+				fmt.Printf("INFRA idx=%d: %s\nCASE %s\n", idx, o.Infra, b)
+				o2 := safeRun(p, t, c, true)
+				tr := o2.Trace
+				if len(tr) > 150 {
+					tr = tr[len(tr)-150:]
+				}
+				for _, l := range tr {
+					fmt.Println(l)
+				}
+				fmt.Printf("SECOND RUN infra=%q\n", o2.Infra)
+			}
 			if len(res.Infra) < 5 {
 				res.Infra = append(res.Infra, fmt.Sprintf("idx=%d seed=%d: %s", idx, seed, o.Infra))
 			}
